@@ -913,6 +913,9 @@ def _static_root():
 def _before_after(app, which):
     def hook():
         fr = _tl.stack[-1]
+        if which == 'after_request' and fr.get('after_yield') is not None and _ACTIVE[0] is not None \
+                and getattr(_tl, 'tix', None) is not None:
+            _ACTIVE[0].hand_over(_tl.tix, fr['after_yield'])
         if fr.get('handler_runs') and fr.get('w_final') != 'redirect':
             _see(fr, which)
     return hook
@@ -1159,6 +1162,20 @@ def _interp_actions(fr):
             # ['yield_to', thread]: hand the baton to that thread right here (it runs until it ends or is pre-empted)
             if _ACTIVE[0] is not None and getattr(_tl, 'tix', None) is not None:
                 _ACTIVE[0].hand_over(_tl.tix, act[1])
+        elif kind == 'hook_change':
+            # ['hook_change', what]: a handler changes the application's hook lists through the public API while other
+            # requests may be inside emit(): 'remove_first' / 'readd_first' (the first before_request hook),
+            # 'add_after' / 'remove_after' (one more after_request hook, which goes to the front of its list)
+            hs = getattr(app, '_verif_hooks', None)
+            if hs:
+                if act[1] == 'remove_first':
+                    app.remove_hook('before_request', hs[0])
+                elif act[1] == 'readd_first':
+                    app.add_hook('before_request', hs[0])
+                elif act[1] == 'add_after':
+                    app.add_hook('after_request', _noop)
+                elif act[1] == 'remove_after':
+                    app.remove_hook('after_request', _noop)
         elif kind == 'copy_off':
             # the copy is an object of its own: taking the stock cache-invalidation listener off the COPY must leave
             # this request's (and every other request's) invalidation in place
@@ -1311,6 +1328,8 @@ def _before_request_hook(app):
         # a body-normalising hook: reads nothing, but gives ITS OWN request a new input stream
         import io
         fr = _tl.stack[-1]
+        if fr.get('hook_yield') is not None and _ACTIVE[0] is not None and getattr(_tl, 'tix', None) is not None:
+            _ACTIVE[0].hand_over(_tl.tix, fr['hook_yield'])       # this request is suspended INSIDE emit(), in a hook
         if fr.get('hook_input'):
             new = ('h=%shook' % fr['tok']).encode()
             app.request['wsgi.input'] = io.BytesIO(new)
@@ -1441,6 +1460,7 @@ def do_call(apps, call, log, environ=None, path=None):
               json_bad=call.get('json_bad'), json_nonobj=call.get('json_nonobj'), hook_input=call.get('hook_input'),
               log=log, w_hdrs={}, w_status=200, w_cookies={}, w_final='text', w_body='done:' + tok,
               handler_runs=True, file_wrapper=call.get('file_wrapper'), domain=call.get('domain'),
+              hook_yield=call.get('hook_yield'), after_yield=call.get('after_yield'),
               w_ext=call.get('w_ext'), w_xt=call.get('w_xt') or (call.get('xt') if environ is None else None))
     j = call['app']
     route = call.get('route', 'r') if environ is None else 'r'
@@ -1532,9 +1552,10 @@ def _equip(a, i):
         a.error(code)(_error_handler_for(a))
     a.error(418)(_teapot_loop)
     a.error(404, '/h')(_partial_404)                 # a 404 handler for everything below /h
-    a.add_hook('before_request', _before_request_hook(a))
-    a.on('before_request', _before_after(a, 'before_request'))
-    a.on('after_request')(_before_after(a, 'after_request'))      # decorator form
+    a._verif_hooks = [_before_request_hook(a), _before_after(a, 'before_request'), _before_after(a, 'after_request')]
+    a.add_hook('before_request', a._verif_hooks[0])
+    a.on('before_request', a._verif_hooks[1])
+    a.on('after_request')(a._verif_hooks[2])      # decorator form
     a.add_hook('after_request', _noop)
     a.remove_hook('after_request', _noop)
     rh = _route_hook_for(a)
@@ -2326,7 +2347,7 @@ def judge(case, obs, run_impl, oracle_body):
         try:
             try:
                 obs2 = run_impl(case)
-            except BaseException as e:  # noqa
+            except Exception as e:  # noqa  (check.py's CaseTimeout is a BaseException: it passes through)
                 obs2 = {'escaped': type(e).__name__, 'msg': str(e)[:200]}
         finally:
             TIMEOUT_SCALE[0] = old
